@@ -70,6 +70,8 @@ RATIOS = (0.1, 0.3, 0.5, 0.8, 1.0, 1.25, 2.0, 4.0, 10.0)
 GAIN_TOL = 1e-5          # of the input amplitude (DESIGN (d))
 DETREND_RTOL = 1e-9      # x Vandermonde condition number x max|x|
 EXACT_RTOL = 1e-12
+RUNAVG_RTOL = 16 * 2.220446049250313e-16    # x window length x max|x| in the window
+RUNAVG_RTOL32 = 4 * 1.1920929e-07            # float32 records are summed in float32
 F32_RTOL = 1e-6         # a float32 record legitimately carries float32 rounding (eps 6e-8) through sums and means
 MAX_SINE_N = 400000
 
@@ -487,13 +489,17 @@ def _post_running_average(args, kwargs, result, pre):
     if after.shape != x.shape:
         return
     ref = np.array(O.window_means(x.tolist(), int(width)))
-    scale = float(np.max(np.abs(x))) if len(x) else 0.0
-    rtol = _rtol_for(x)
-    ok, idx, err, allowed = tol.worst(after, ref, scale=scale, rtol=rtol)
+    # every output is the mean of ITS OWN window: accurate to the rounding of a sum of w terms of that window's size,
+    # not to the global max|x| (a weak coda after a huge pulse must still be averaged correctly)
+    wmax, wlen = O.window_absmax(x.tolist(), int(width))
+    scale = np.array(wmax) * np.array(wlen, dtype=float)
+    rtol = RUNAVG_RTOL32 if x.dtype == np.float32 else RUNAVG_RTOL
+    ok, idx, err, allowed = tol.worst(after, ref, scale=scale, rtol=rtol, atol=1e-300)
     ctx.check(ok, 'runavg==mean-of-original-window',
-              lambda: _wit('running_average', pre, {'after': after[:50], 'expected': ref[:50], 'err': err}, **call),
-              'running_average(%r) on %d %s samples: %s' % (width, len(x), x.dtype,
-                                                           tol.describe(after, ref, scale=scale, rtol=rtol)))
+              lambda: _wit('running_average', pre, {'after': after[:50], 'expected': ref[:50], 'err': err,
+                                                    'at': None if idx is None else int(idx[0])}, **call),
+              'running_average(%r) on %d %s samples: %s (allowed = %.3g * window length * max|x| in the window)'
+              % (width, len(x), x.dtype, tol.describe(after, ref, scale=scale, rtol=rtol, atol=1e-300), rtol))
 
 
 def install(ctx):
@@ -1215,6 +1221,7 @@ def pinned_sines():
 
 LIN_N = [30, 40, 63, 64, 65, 100, 127, 128, 129, 333, 1000, 1023, 1024, 1025, 2048, 4095, 4096, 4097, 4684, 5000]
 LONG_N = [65535, 65537, 70001, 131073]          # past 2**16: a few per quick run
+DYNRANGE_SHARE = [0.12]     # share of float64 records with a huge dynamic range inside the record
 DTYPES = ['float64', 'float32', 'int64', 'int32', 'int16', 'int8', 'uint8', 'uint16']
 
 
@@ -1248,6 +1255,45 @@ def _decorate(rng, x):
     return x, tag
 
 
+def dynrange_record(rng, n):
+    """Huge dynamic range INSIDE one record: a big segment (one-sided pulse, plateau, offset + noise; 1e6..1e12)
+    followed or preceded by a weak segment (noise, sine or an exact constant; 1e-6..1e-2), or one huge outlier sample
+    in a weak record."""
+    big = float(10.0 ** rng.uniform(6, 12))
+    weak = float(10.0 ** rng.uniform(-6, -2))
+    kind = int(rng.integers(4))
+    wk = int(rng.integers(3))
+    if wk == 0:
+        x = rng.normal(size=n) * weak
+        wname = 'noise'
+    elif wk == 1:
+        x = np.sin(np.arange(n) * rng.uniform(0.05, 1.5)) * weak
+        wname = 'sine'
+    else:
+        x = np.full(n, 2.5 * weak if rng.random() < 0.5 else 2.5e-3)
+        wname = 'const'
+    if kind == 3 or n < 3:
+        x[int(rng.integers(n))] = big * float(rng.choice([-1, 1]))
+        return x, 'dynrange-outlier-%s' % wname
+    m = int(rng.integers(1, max(2, (2 * n) // 3)))
+    t = np.arange(m) / max(m - 1.0, 1.0)
+    if kind == 0:
+        seg = big * np.sin(np.pi * t) ** 2 + big * 0.01        # one-sided pulse
+        sname = 'pulse'
+    elif kind == 1:
+        seg = np.full(m, big if rng.random() < 0.5 else 1e9)   # plateau
+        sname = 'plateau'
+    else:
+        seg = big + rng.normal(size=m) * big * 1e-3            # un-removed offset with noise
+        sname = 'offset'
+    seg = seg * float(rng.choice([-1, 1]))
+    if rng.random() < 0.7:
+        x[:m] = seg
+        return x, 'dynrange-%s-then-%s' % (sname, wname)
+    x[-m:] = seg
+    return x, 'dynrange-%s-then-%s' % (wname, sname)
+
+
 def typed_record(rng, n, dtype, frac=1.0, dyadic=False):
     """A record of the given dtype. Integers use the fraction frac of the dtype's range (all of it by default, so that
     sums / differences of neighbours leave the dtype); float32 optionally dyadic so that x+y is exact."""
@@ -1273,6 +1319,8 @@ def typed_record(rng, n, dtype, frac=1.0, dyadic=False):
         x, cls = gen.record(rng, n, allow_const=False)
         x, tag = _decorate(rng, x.astype(np.float32))
         return x, 'float32-%s%s' % (cls, tag)
+    if rng.random() < DYNRANGE_SHARE[0]:
+        return dynrange_record(rng, n)
     x, cls = gen.record(rng, n, allow_const=False)
     r = rng.random()
     tag = ''
@@ -1396,8 +1444,10 @@ def gen_detrend(rng, k):
             x[-1] = np.float32(np.mean(x) + float(rng.choice([-1, 1])) * rng.uniform(5, 50) * max(float(np.std(x)), 1e-3))
             spike = '+endspike'
     else:
-        cls = ['noise', 'walk', 'quake', 'sine', 'intnoise', 'plateau', 'step', 'ramp'][int(rng.integers(8))]
-        if cls == 'ramp':
+        cls = ['noise', 'walk', 'quake', 'sine', 'intnoise', 'plateau', 'step', 'ramp', 'dynrange'][int(rng.integers(9))]
+        if cls == 'dynrange':
+            x, cls = dynrange_record(rng, n)
+        elif cls == 'ramp':
             t = np.arange(n) / max(n - 1.0, 1.0)
             x = rng.normal(size=n) * 0.05 + float(rng.choice([-1, 1])) * t ** int(rng.integers(1, 6)) * rng.uniform(1, 5)
             x = x * 10.0 ** rng.uniform(-2, 2)
@@ -1499,7 +1549,10 @@ def gen_runavg(rng, i):
     w = int(rng.integers(1, 26))
     if rng.random() < 0.1:
         w = 1
-    x, cls = typed_record(rng, n, _pick_dtype(rng, 0.45))
+    if rng.random() < 0.35:
+        x, cls = dynrange_record(rng, n)
+    else:
+        x, cls = typed_record(rng, n, _pick_dtype(rng, 0.45))
     return {'x': x, 'dt': float(_wide_dt(rng)), 'width': w,
             'w_type': ['int', 'int', 'int', 'np', 'float'][int(rng.integers(5))], 'kw': bool(rng.random() < 0.3),
             'noarg': bool(w == 1 and rng.random() < 0.5),
